@@ -524,8 +524,8 @@ class OverhangFilter(Module):
             offset_masks[i] = np.logical_and((support_idx[i][0] >= 0) * (support_idx[i][0] < size[dir_orth1]),
                                              (support_idx[i][1] >= 0) * (support_idx[i][1] < size[dir_orth2]))
 
-        # Loop over all the layers
-        while True:
+        # Loop over all the layers (a domain of a single layer only has the base layer)
+        while size[dir_layer] > 1:
             # 3) Take smooth minimum
             el = [None, None, None]
             el[dir_layer] = ind_layer
